@@ -111,7 +111,7 @@ pub fn gen_c17(out: &mut Out, rng: &mut Rng, thorough: bool) {
     for kind in ["tcp", "rtu"] {
         let ops = typed_boundary_ops(rng);
         for pair in ops.chunks(2) {
-            let unit = rng.u8();
+            let unit = rng.unit();
             let mut line = format!("sync {kind} {}", hex8(unit));
             for (tid, (op, pdu)) in pair.iter().enumerate() {
                 line.push_str(&format!(" | typed {} r=d{}", op.tok(), hex_raw(&frame(kind, tid as u16, unit, pdu))));
@@ -180,7 +180,7 @@ pub fn gen_c17(out: &mut Out, rng: &mut Rng, thorough: bool) {
         let nops = rng.range(1, 5);
         for step in 0..nops {
             if rng.chance(1, 4) {
-                unit = rng.u8();
+                unit = rng.unit();
                 line.push_str(&format!(" | slave {}", hex8(unit)));
             }
             let last = step == nops - 1;
@@ -248,7 +248,7 @@ pub fn gen_c01_sync(out: &mut Out, rng: &mut Rng, thorough: bool) {
     for kind in if thorough { vec!["tcp", "rtu"] } else { vec!["tcp"] } {
         let ops = typed_boundary_ops(rng);
         for pair in ops.chunks(3) {
-            let unit = rng.u8();
+            let unit = rng.unit();
             let mut line = format!("sync {kind} {}", hex8(unit));
             for (tid, (op, pdu)) in pair.iter().enumerate() {
                 line.push_str(&format!(" | typed {} r=d{}", op.tok(), hex_raw(&frame(kind, tid as u16, unit, pdu))));
@@ -299,7 +299,7 @@ pub fn mon_c01_sync(out: &mut Out, l: &str, r: &str) {
 pub fn gen_c16_sync(out: &mut Out, rng: &mut Rng, thorough: bool) {
     for i in 0..(if thorough { 12 } else { 3 }) {
         let kind = if i % 3 == 2 { "rtu" } else { "tcp" };
-        let unit = rng.u8();
+        let unit = rng.unit();
         // silent server, then prompt replies: timed out, then usable again (wide margins: the
         // prompt reply has 1.5 s to arrive)
         let good = |tid: u16| format!("d{}", hex_raw(&frame(kind, tid, unit, &[0x03, 0x02, 0x12, 0x34])));
@@ -440,7 +440,7 @@ pub fn gen_serial_server(out: &mut Out, rng: &mut Rng, n: usize) {
                     break r;
                 }
             };
-            let unit = rng.u8();
+            let unit = rng.unit();
             data.extend(frame("ser", 0, unit, &spec::request_bytes(&req).unwrap()));
             svc.push(match rng.below(6) {
                 0 => Svc::Decline,
